@@ -59,6 +59,7 @@ def run(chk, repo, tier):
     if n_sites == 0:
         raise AnalysisError('F1: no model-wide substitution found (rename_symbols moved?)')
     run_more(chk, repo, fields)
+    run_f5_f7(chk, repo)
 
 
 # bare-statement calls whose dropped result was read and confirmed harmless
@@ -229,3 +230,140 @@ def run_more(chk, repo, fields):
     chk.extra['model_returning_functions'] = len(returning_model)
     if len(returning_model) < 50:
         raise AnalysisError(f'F4: only {len(returning_model)} model-returning modeling functions recognised')
+
+
+def _explicit_arg_paths(fnode, param):
+    """enumerate the structured paths of the function prefix that decide which value a mirror local of `param` gets when
+    the argument is given (not None). Returns [(mirror, final source text)] over all paths."""
+    results = []
+
+    def val_none(v):
+        # None-ness of an abstract value: 'P' (given, not None) -> False; others unknown
+        return False if v == 'P' else None
+
+    def test_value(t, env):
+        # decide `X is None` / `X is not None` for X the parameter or a tracked local
+        if isinstance(t, ast.Compare) and len(t.ops) == 1 and isinstance(t.comparators[0], ast.Constant) \
+                and t.comparators[0].value is None and isinstance(t.left, ast.Name):
+            nm = t.left.id
+            if nm == param:
+                isnone = False
+            elif nm in env:
+                isnone = val_none(env[nm])
+            else:
+                return None
+            if isnone is None:
+                return None
+            return isnone if isinstance(t.ops[0], ast.Is) else (not isnone)
+        return None
+
+    def expr_value(e, env):
+        if isinstance(e, ast.Name) and e.id == param:
+            return 'P'
+        if isinstance(e, ast.Name) and e.id in env:
+            return env[e.id]
+        if isinstance(e, ast.IfExp):
+            tv = test_value(e.test, env)
+            if tv is True:
+                return expr_value(e.body, env)
+            if tv is False:
+                return expr_value(e.orelse, env)
+            a, b = expr_value(e.body, env), expr_value(e.orelse, env)
+            return a if a == b else f'either({a}|{b})'
+        return 'other:' + unparse(e)[:40]
+
+    def run(stmts, env, k):
+        if not stmts:
+            return k(env)
+        s_, rest = stmts[0], stmts[1:]
+        if isinstance(s_, ast.Assign) and len(s_.targets) == 1 and isinstance(s_.targets[0], ast.Name):
+            env2 = dict(env)
+            env2[s_.targets[0].id] = expr_value(s_.value, env)
+            return run(rest, env2, k)
+        if isinstance(s_, ast.If):
+            tv = test_value(s_.test, env)
+            branches = [s_.body] if tv is True else [s_.orelse] if tv is False else [s_.body, s_.orelse]
+            for b in branches:
+                run(list(b) + rest, env, k)
+            return
+        if isinstance(s_, (ast.Return, ast.Raise)):
+            return k(env)
+        return run(rest, env, k)
+    run(list(fnode.body), {}, lambda env: results.append(dict(env)))
+    return results
+
+
+def run_f5_f7(chk, repo):
+    F5 = chk.rule('F5', 'evaluators: an explicitly passed optional argument (etas, dataset) is the value that is used', floor=4)
+    F6 = chk.rule('F6', 'simplify_expression: the sympy assumption of a parameter follows from its bound (lower > 0 positive, '
+                        'lower >= 0 nonnegative, upper < 0 negative, upper <= 0 nonpositive)', floor=4)
+    F7 = chk.rule('F7', 'code generation: symbols of generated and of kept statements are both recorded as defined', floor=2)
+    em = repo.module('pharmpy.modeling.evaluation')
+    for f in em.functions.values():
+        for param in ('etas', 'dataset'):
+            if param not in f.all_params:
+                continue
+            # mirror locals: assigned from an expression mentioning the parameter
+            mirrors = {n.targets[0].id for n in walk_no_nested(f.node) if isinstance(n, ast.Assign)
+                       and isinstance(n.targets[0], ast.Name) and n.targets[0].id != param
+                       and param in {x.id for x in ast.walk(n.value) if isinstance(x, ast.Name)}
+                       and (isinstance(n.value, (ast.Name, ast.IfExp)))}
+            if not mirrors:
+                continue
+            paths = _explicit_arg_paths(f.node, param)
+            for mvar in sorted(mirrors):
+                finals = sorted({p.get(mvar, 'unassigned') for p in paths})
+                ok = finals == ['P']
+                chk.instance(F5, f'{f.name}({param}=given): `{mvar}` ends as {finals}')
+                if not ok:
+                    chk.violation(F5, em.rel, f.name, f'{mvar} <- {finals} when {param} is given',
+                                  f'with `{param}` passed explicitly some path binds `{mvar}` to another source',
+                                  line=f.node.lineno,
+                                  witness='a model that carries initial individual estimates and a call with etas=E different '
+                                          'from them: the gradient is evaluated at the stored estimates, not at E')
+    xm = repo.module('pharmpy.modeling.expressions')
+    sf = xm.functions.get('_simplify_expression_from_parameters')
+    if sf is None:
+        raise AnalysisError('_simplify_expression_from_parameters not found')
+    WANT = {('lower', 'Gt'): 'positive', ('lower', 'GtE'): 'nonnegative', ('upper', 'Lt'): 'negative',
+            ('upper', 'LtE'): 'nonpositive'}
+    n6 = 0
+    for n in ast.walk(sf.node):
+        if isinstance(n, ast.If) and isinstance(n.test, ast.Compare) and isinstance(n.test.left, ast.Attribute) \
+                and n.test.left.attr in ('lower', 'upper') and isinstance(n.test.comparators[0], ast.Constant) \
+                and n.test.comparators[0].value == 0:
+            key = (n.test.left.attr, type(n.test.ops[0]).__name__)
+            kws = {k.arg for s_ in n.body for c in ast.walk(s_) if isinstance(c, ast.Call)
+                   and (dotted(c.func) or '').endswith('Symbol') for k in c.keywords
+                   if isinstance(k.value, ast.Constant) and k.value.value is True} - {'real'}
+            n6 += 1
+            want = WANT.get(key)
+            chk.instance(F6, f'if p.{key[0]} {unparse(n.test)[len("p." + key[0]):].strip()}: assumptions {sorted(kws)} (wanted {want})')
+            if want is None or kws != {want}:
+                chk.violation(F6, xm.rel, sf.name, f'{unparse(n.test)}: {sorted(kws)}',
+                              f'a parameter with this bound is only known to be {want}', line=n.lineno,
+                              witness='a theta with bound (0, init): Piecewise((1, THETA > 0), (0, True)) is simplified to 1 '
+                                      'although THETA = 0 is allowed')
+    if n6 < 4:
+        raise AnalysisError(f'F6: only {n6} bound branches recognised')
+    from sa import lints
+    crm = repo.module('pharmpy.model.external.nonmem.records.code_record')
+    us = crm.classes['CodeRecord'].methods.get('update_statements')
+    loop = next((n for n in walk_no_nested(us.node) if isinstance(n, ast.For) and isinstance(n.target, ast.Tuple)
+                 and any(isinstance(c, ast.Call) and unparse(c.func) == 'defined_symbols.add' for c in ast.walk(n))), None)
+    if loop is None:
+        raise AnalysisError('F7: loop over the statement diff not found')
+    opvar = loop.target.elts[0].id
+
+    def target(s_):
+        return isinstance(s_, ast.Expr) and isinstance(s_.value, ast.Call) and unparse(s_.value.func) == 'defined_symbols.add'
+    for op, want in ((1, True), (0, True), (-1, False)):
+        may, _ = lints.exec_under(loop.body, {opvar: op}, target)
+        chk.instance(F7, f'op {op:+d}: defined_symbols.add(...) reachable: {may} (wanted {want})')
+        if may != want:
+            chk.violation(F7, crm.rel, us.qualname, f'op {op:+d}: defined_symbols.add reachable {may}',
+                          'the printer decides with defined_symbols whether a trailing (0, True) branch of a Piecewise is the '
+                          'reader\'s default (dropped) or a real ELSE X = 0; symbols of statements kept verbatim must count as '
+                          'defined', line=loop.lineno,
+                          witness='X assigned by an untouched statement, then a regenerated IF ... ELSE X = 0 block: the ELSE '
+                                  'branch is dropped and X keeps its old value')
